@@ -23,9 +23,11 @@ Record pquirks := {
   q_prefix_without_separator : bool;  (* a directory key matches by bare startswith: `src` covers `src2/x` and `srcfile.py` *)
   q_path_relative_to_cwd     : bool;  (* a path given relative to the working directory is judged as if relative to the root *)
   q_allow_dict_unsupported   : bool;  (* documented allow items {pattern: ..} raise TypeError in validation (swallowed) *)
+  q_trailing_slash_depth     : bool;  (* the depth of a key written with a trailing slash counts the empty last component:
+                                         `lib/` ties with `lib/core` and, listed first, judges lib/core/x *)
 }.
-Definition ideal : pquirks := Build_pquirks false false false false.
-Definition all_on : pquirks := Build_pquirks true true true true.
+Definition ideal : pquirks := Build_pquirks false false false false false.
+Definition all_on : pquirks := Build_pquirks true true true true true.
 
 (* ------------------------------------------------------------------ abstract configuration *)
 Inductive ditem := DStr (p : string) | DDict (p : string) (reason message : option string).
@@ -73,6 +75,15 @@ Fixpoint split_on (c : ascii) (s : string) : list string :=
          | [] => [String a EmptyString]
          | x :: xs => String a x :: xs
          end
+  end.
+
+(* a directory key without its trailing slashes (`lib/` and `lib` name the same directory) *)
+Fixpoint rstrip_slash (s : string) : string :=
+  match s with
+  | EmptyString => EmptyString
+  | String c s' =>
+    let r := rstrip_slash s' in
+    if Ascii.eqb c "/" && String.eqb r "" then EmptyString else String c r
   end.
 
 Definition or_str (a b : string) : string := if String.eqb a "" then b else a.   (* Python `a or b` *)
@@ -124,12 +135,13 @@ Section Engine.
 
   (* ---------------------------------------------------------------- DirectoryMatcher *)
   Definition prefix_test (q : pquirks) (d p : string) : bool :=
-    if q_prefix_without_separator q then starts_with d p else starts_with (d ++ "/") p.
+    if q_prefix_without_separator q then starts_with d p else starts_with (rstrip_slash d ++ "/") p.
 
   Definition check_path_match (q : pquirks) (d p : string) : option Z :=
     if String.eqb d fp_root_key then
       (if String.eqb d fp_root_key2 && negb (str_contains fp_root_notin p) then Some fp_root_depth else None)
-    else if prefix_test q d p then Some (Z.of_nat (List.length (split_on fp_split_sep d)))
+    else if prefix_test q d p
+         then Some (Z.of_nat (List.length (split_on fp_split_sep (if q_trailing_slash_depth q then d else rstrip_slash d))))
     else None.
 
   Fixpoint find_loop (q : pquirks) (p : string) (dirs : list (string * drule))
@@ -253,10 +265,10 @@ Section Engine.
     end.
 
   (* ================================================================ specification (property C18) *)
-  (* a directory key contains a path: the path lies below that directory; the key "/" stands for the
-     files placed directly in the project root *)
+  (* a directory key contains a path: the path lies below that directory (a key may be written with or
+     without a trailing slash); the key "/" stands for the files placed directly in the project root *)
   Definition contains (d p : string) : bool :=
-    if String.eqb d "/" then negb (str_contains "/" p) else starts_with (d ++ "/") p.
+    if String.eqb d "/" then negb (str_contains "/" p) else starts_with (rstrip_slash d ++ "/") p.
 
   (* the most specific containing key = the longest one (first listed among equal ones) *)
   Fixpoint spec_rule_loop (p : string) (dirs : list (string * drule)) (best : option (string * drule))
@@ -267,7 +279,8 @@ Section Engine.
       if contains d p then
         match best with
         | None => spec_rule_loop p rest (Some (d, r))
-        | Some (bd, _) => if String.length bd <? String.length d then spec_rule_loop p rest (Some (d, r))
+        | Some (bd, _) => if String.length (rstrip_slash bd) <? String.length (rstrip_slash d)
+                          then spec_rule_loop p rest (Some (d, r))
                           else spec_rule_loop p rest best
         end
       else spec_rule_loop p rest best
